@@ -269,7 +269,32 @@ def replay(cfg, events):
                     # parse through a named-graph view of the dataset
                     name = URIRef(e["into"])
                     target = sink.graph(name) if isinstance(sink, Dataset) else sink.get_context(name)
-                guarded(lambda: target.parse(data=e["text"], format=e["fmt"]))
+                how = e.get("how", "data")
+                if e.get("reseed"):
+                    # an application that seeds the global generator between two loads (a test harness, a "reproducible" pipeline)
+                    import random as _random
+                    _random.seed(e["reseed"])
+                if how == "data":
+                    guarded(lambda: target.parse(data=e["text"], format=e["fmt"]))
+                elif how == "publicID":
+                    # two documents loaded under the same public id (a file reloaded, a newer version of it)
+                    guarded(lambda: target.parse(data=e["text"], format=e["fmt"], publicID="http://ex.example/doc"))
+                elif how in ("path", "file"):
+                    import os as _os
+                    import tempfile as _tempfile
+                    d_ = _tempfile.mkdtemp(prefix="rvf-parse-", dir="/tmp")
+                    try:
+                        path = _os.path.join(d_, "doc." + {"nquads": "nq", "nt": "nt", "turtle": "ttl", "trig": "trig", "xml": "rdf", "trix": "trix", "json-ld": "jsonld", "hext": "hext", "n3": "n3"}.get(e["fmt"], "txt"))
+                        with open(path, "wb") as f_:
+                            f_.write(e["text"].encode("utf-8"))
+                        if how == "path":
+                            guarded(lambda: target.parse(path, format=e["fmt"]))
+                        else:
+                            with open(path, "rb") as f_:
+                                guarded(lambda: target.parse(file=f_, format=e["fmt"], publicID="http://ex.example/doc"))
+                    finally:
+                        import shutil as _shutil
+                        _shutil.rmtree(d_, ignore_errors=True)
                 e["res"] = "ok"
             except _Timeout:
                 e["res"] = "timeout"
